@@ -5,6 +5,7 @@
 import MptModel.Lemmas.DispatchTable
 import MptModel.Lemmas.DispatchText
 import MptModel.Lemmas.DispatchSpec
+set_option linter.unusedSimpArgs false
 namespace Mpt.Dispatch
 
 /-- table invariant: live ids pairwise distinct, live registrations pairwise distinct, no placeholder handler -/
@@ -577,14 +578,13 @@ theorem findSome_const {α β} {l : List α} {f : α → Option β} {c : β} (ha
       · rw [hfa] at hs; cases hs
       · exact ⟨x, hx, hs⟩
 
-theorem refines_hash {m : St} {sp : Spec} {msg : List Byte} {h : HRes} (hw : TWf m.d.tab) (hr : Rel m sp) (hs : SInv sp)
-    (hd : hashInDomain msg = true) :
+theorem refines_hash {m : St} {sp : Spec} {msg : List Byte} {h : HRes} (hw : TWf m.d.tab) (hr : Rel m sp) (hs : SInv sp) :
     ∃ sp', sp.step (.hash msg h) (step m (.hash msg h)).2 = some sp' ∧ Rel (step m (.hash msg h)).1 sp' ∧
       TWf (step m (.hash msg h)).1.d.tab := by
   refine ⟨sp, ?_, ?_, ?_⟩
   · simp only [step, Spec.step]
     apply findSome_const (fun x y hxy => stepHashId_same hxy)
-    rcases hashId_cmdIds msg hd with ⟨v, hv, hmem⟩ | ⟨hf, hmem⟩
+    rcases hashId_cmdIds msg with ⟨v, hv, hmem⟩ | ⟨hf, hmem⟩
     · refine ⟨some v, hmem, ?_⟩
       unfold dispatchHash
       rw [hv]
@@ -751,8 +751,7 @@ theorem refines_reserve {m : St} {sp : Spec} {w : Nat} (hw : TWf m.d.tab) (hr : 
           · simp
 
 /-- one step of the model is accepted by the monitor and keeps the refinement relation -/
-theorem step_refines {m : St} {sp : Spec} {op : Op} (hw : TWf m.d.tab) (hr : Rel m sp) (hs : SInv sp)
-    (hd : inDomain op = true) :
+theorem step_refines {m : St} {sp : Spec} {op : Op} (hw : TWf m.d.tab) (hr : Rel m sp) (hs : SInv sp) :
     ∃ sp', sp.step op (step m op).2 = some sp' ∧ Rel (step m op).1 sp' ∧ TWf (step m op).1.d.tab := by
   cases op with
   | set id => exact refines_set hw hr hs
@@ -762,31 +761,31 @@ theorem step_refines {m : St} {sp : Spec} {op : Op} (hw : TWf m.d.tab) (hr : Rel
   | emitId id h => exact refines_emitId hw hr hs
   | emitMsg msg h => exact refines_emitMsg hw hr hs
   | emitNone h => exact refines_emitNone hw hr hs
-  | hash msg h => exact refines_hash hw hr hs hd
+  | hash msg h => exact refines_hash hw hr hs
   | reserve w => exact refines_reserve hw hr hs
   | fini => exact refines_fini hw hr hs
 
 /-- histories: the monitor accepts the whole trace, and the log stays well-formed -/
 theorem runFrom_refines {ops : List Op} {m : St} {sp : Spec} {L : List LogE} (hw : TWf m.d.tab) (hr : Rel m sp) (hs : SInv sp)
-    (hl : LInv sp L) (hd : ∀ op, op ∈ ops → inDomain op = true) :
+    (hl : LInv sp L) :
     ∃ sp', sp.run (runFrom m ops).2 = some sp' ∧ Rel (runFrom m ops).1 sp' ∧ TWf (runFrom m ops).1.d.tab ∧ SInv sp' ∧
       LInv sp' (L ++ logOf (runFrom m ops).2) := by
   induction ops generalizing m sp L with
   | nil => exact ⟨sp, rfl, hr, hw, hs, by simpa [runFrom, logOf] using hl⟩
   | cons op rest ih =>
-    obtain ⟨sp1, h1, hr1, hw1⟩ := step_refines hw hr hs (hd op (by simp))
+    obtain ⟨sp1, h1, hr1, hw1⟩ := step_refines (op := op) hw hr hs
     obtain ⟨hs1, hl1⟩ := step_inv h1 hs hl
-    obtain ⟨sp', h2, hr2, hw2, hs2, hl2⟩ := ih hw1 hr1 hs1 hl1 (fun o ho => hd o (by simp [ho]))
+    obtain ⟨sp', h2, hr2, hw2, hs2, hl2⟩ := ih hw1 hr1 hs1 hl1
     refine ⟨sp', ?_, hr2, hw2, hs2, ?_⟩
     · simp only [runFrom, Spec.run, h1]
       exact h2
     · simpa [runFrom, logOf, List.append_assoc] using hl2
 
-theorem run_refines (fb : Bool) {ops : List Op} (hd : ∀ op, op ∈ ops → inDomain op = true) :
+theorem run_refines (fb : Bool) (ops : List Op) :
     ∃ sp', (Spec.init fb).run (run fb ops).2 = some sp' ∧ Rel (run fb ops).1 sp' ∧ TWf (run fb ops).1.d.tab ∧ SInv sp' ∧
       LInv sp' (logOf (run fb ops).2) := by
   have := runFrom_refines (ops := ops) (m := St.init fb) (sp := Spec.init fb) (L := [])
-    (by simpa [St.init] using TWf.none) (Rel.init fb) (SInv.init fb) (LInv.init fb) hd
+    (by simpa [St.init] using TWf.none) (Rel.init fb) (SInv.init fb) (LInv.init fb)
   simpa [run] using this
 
 
